@@ -929,9 +929,9 @@ Qed.
 
 (* ---------------------------------------------------------------- round trip of IP flags (ASCII letter case) *)
 
-Definition ascii (s : bytes) : Prop := Forall (fun c => c < 128) s.
+Definition ascii_bytes (s : bytes) : Prop := Forall (fun c => c < 128) s.
 
-Lemma to_lower_ascii s : ascii s -> to_lower s = map lower_byte s.
+Lemma to_lower_ascii s : ascii_bytes s -> to_lower s = map lower_byte s.
 Proof.
   induction s as [|a t IH]; intros H; [reflexivity|]. inversion H; subst. cbn [to_lower map].
   destruct t as [|b u]; [reflexivity|].
@@ -940,7 +940,7 @@ Proof.
   rewrite (IH H3). destruct u; reflexivity.
 Qed.
 
-Lemma ascii_join ws : Forall ascii ws -> ascii (join 44 ws).
+Lemma ascii_join ws : Forall ascii_bytes ws -> ascii_bytes (join 44 ws).
 Proof.
   induction 1 as [|w ws Hw Hws IH]; [constructor|]. destruct ws as [|w' ws']; [exact Hw|].
   rewrite join_cons by discriminate. apply Forall_app. split; [exact Hw|]. constructor; [lia|exact IH].
@@ -949,7 +949,7 @@ Qed.
 Lemma map_lower_join ws : map lower_byte (join 44 ws) = join 44 (map (map lower_byte) ws).
 Proof.
   induction ws as [|w ws IH]; [reflexivity|]. destruct ws as [|w' ws']; [reflexivity|].
-  rewrite join_cons by discriminate. cbn [map]. rewrite join_cons by discriminate.
+  rewrite join_cons by discriminate. cbn [map]. rewrite (join_cons 44 (map lower_byte w)) by discriminate.
   rewrite map_app. cbn [map]. rewrite IH. reflexivity.
 Qed.
 
@@ -965,7 +965,7 @@ Proof. repeat constructor. Qed.
 (* any sequence of the three names (any subset, order, repetition), each written in any ASCII letter case,
    joined by commas, parses to exactly the union of their bits *)
 Lemma parse_ip_flags_roundtrip (Hcheck : ip_table_check = true) written names :
-  names <> [] -> Forall ascii written ->
+  names <> [] -> Forall ascii_bytes written ->
   Forall2 (fun w n => map lower_byte w = n /\ is_flag_name rfc_ip_flags n = true) written names ->
   parse_ip_flags (join 44 written) = Some (rfc_bits rfc_ip_flags names).
 Proof.
@@ -979,5 +979,5 @@ Proof.
     eapply Forall_impl; [|exact Hnames]. intros n Hn. apply (flag_name_no_comma rfc_ip_flags n Hn rfc_ip_no_comma). }
   apply (parse_ip_flags_exact Hcheck). right. rewrite Hsplit. split; [|split; [exact Hnames|reflexivity]].
   intros E. assert (L : split_on 44 (to_lower (join 44 written)) = [[]]) by (rewrite E; reflexivity).
-  rewrite Hsplit in L. subst names. inversion Hnames; subst. discriminate.
+  rewrite Hsplit in L. rewrite L in Hnames. apply Forall_inv in Hnames. vm_compute in Hnames. discriminate.
 Qed.
